@@ -169,7 +169,7 @@ static void repop(int w)
 int main(void)
 {
     static char line[1 << 16];
-    setvbuf(stdout, NULL, _IOFBF, 1 << 16);
+    setvbuf(stdout, NULL, _IOLBF, 1 << 16);
     while (fgets(line, sizeof line, stdin)) {
         char op[16] = "", arg[32] = "";
         long a = -1;
